@@ -1138,6 +1138,7 @@ func genC06(c *Ctx) {
 	}
 	c06Directed(c, envs)
 	c06History(c, envs)
+	c06Independence(c, envs)
 	c06RescaleChains(c, envs)
 	c06Malformed(c, envs)
 }
@@ -1345,6 +1346,181 @@ func c06History(c *Ctx, envs []*c06Env) {
 				e.tie(c, op, c06M{lvl, 2, e.logMax, ds2}, c06M{}, om)
 			}
 			c.Count("tie-history:" + kind)
+		}
+	}
+}
+
+// c06Independence: every evaluator method that returns a NEW ciphertext (…New variants, DropLevelNew, CopyNew,
+// RotateHoistedNew) or fills a receiver distinct from its input (Rescale, RescaleTo with and without rescaling,
+// Rotate by 0 = copy, Relinearize) must hand out an object that shares neither MetaData nor limbs with the input:
+//   b := op(a);  mutate b in place (Mul(b, 0.5, b): all limbs and the scale change; then SetScale)  =>  a unchanged
+//   b := op(a);  mutate a in place                                                                  =>  b unchanged
+// "unchanged" = same metadata token (level, degree, scale mantissa/exponent, LogDimensions), byte-identical limbs,
+// and identical decoded values.  Finding key per operation: C06/<op>/output-shares-metadata-or-limbs.
+func c06Independence(c *Ctx, envs []*c06Env) {
+	for _, e := range envs {
+		e := e
+		ds := e.params.DefaultScale()
+		L := e.params.MaxLevel()
+		lc := e.params.LevelsConsumedPerRescaling()
+		ps := rlwe.NewScale(1)
+		for i := 0; i < lc; i++ {
+			ps = ps.Mul(rlwe.NewScale(e.params.Q()[L-i]))
+		}
+		type newOp struct {
+			name string
+			in   string // "ct": fresh degree-1 input; "deg2": tensor product; "big": fresh at scale default*q_L(*q_{L-1})
+			f    func(a *rlwe.Ciphertext) ([]*rlwe.Ciphertext, error)
+		}
+		one := func(ct *rlwe.Ciphertext, err error) ([]*rlwe.Ciphertext, error) { return []*rlwe.Ciphertext{ct}, err }
+		into := func(deg, lvl int, f func(o *rlwe.Ciphertext) error) ([]*rlwe.Ciphertext, error) {
+			o := ckks.NewCiphertext(e.params, deg, lvl)
+			return []*rlwe.Ciphertext{o}, f(o)
+		}
+		other := e.fresh(c, L, e.logMax, ds)
+		vec := e.randVals(c, 1<<e.logMax, 1)
+		pt := ckks.NewPlaintext(e.params, L)
+		if err := e.ecd.Encode(vec, pt); err != nil {
+			panic(err)
+		}
+		ops := []newOp{
+			{"AddNew-ct", "ct", func(a *rlwe.Ciphertext) ([]*rlwe.Ciphertext, error) { return one(e.eval.AddNew(a, other.ct)) }},
+			{"AddNew-pt", "ct", func(a *rlwe.Ciphertext) ([]*rlwe.Ciphertext, error) { return one(e.eval.AddNew(a, pt)) }},
+			{"AddNew-scalar", "ct", func(a *rlwe.Ciphertext) ([]*rlwe.Ciphertext, error) { return one(e.eval.AddNew(a, 0.25)) }},
+			{"AddNew-vector", "ct", func(a *rlwe.Ciphertext) ([]*rlwe.Ciphertext, error) { return one(e.eval.AddNew(a, vec)) }},
+			{"SubNew-ct", "ct", func(a *rlwe.Ciphertext) ([]*rlwe.Ciphertext, error) { return one(e.eval.SubNew(a, other.ct)) }},
+			{"SubNew-scalar", "ct", func(a *rlwe.Ciphertext) ([]*rlwe.Ciphertext, error) { return one(e.eval.SubNew(a, 0.25)) }},
+			{"SubNew-vector", "ct", func(a *rlwe.Ciphertext) ([]*rlwe.Ciphertext, error) { return one(e.eval.SubNew(a, vec)) }},
+			{"MulNew-ct", "ct", func(a *rlwe.Ciphertext) ([]*rlwe.Ciphertext, error) { return one(e.eval.MulNew(a, other.ct)) }},
+			{"MulNew-pt", "ct", func(a *rlwe.Ciphertext) ([]*rlwe.Ciphertext, error) { return one(e.eval.MulNew(a, pt)) }},
+			{"MulNew-scalar", "ct", func(a *rlwe.Ciphertext) ([]*rlwe.Ciphertext, error) { return one(e.eval.MulNew(a, 0.5)) }},
+			{"MulNew-integer", "ct", func(a *rlwe.Ciphertext) ([]*rlwe.Ciphertext, error) { return one(e.eval.MulNew(a, 3)) }},
+			{"MulNew-vector", "ct", func(a *rlwe.Ciphertext) ([]*rlwe.Ciphertext, error) { return one(e.eval.MulNew(a, vec)) }},
+			{"MulRelinNew-ct", "ct", func(a *rlwe.Ciphertext) ([]*rlwe.Ciphertext, error) { return one(e.eval.MulRelinNew(a, other.ct)) }},
+			{"MulRelinNew-scalar", "ct", func(a *rlwe.Ciphertext) ([]*rlwe.Ciphertext, error) { return one(e.eval.MulRelinNew(a, 0.5)) }},
+			{"ScaleUpNew", "ct", func(a *rlwe.Ciphertext) ([]*rlwe.Ciphertext, error) { return one(e.eval.ScaleUpNew(a, rlwe.NewScale(2))) }},
+			{"DropLevelNew-1", "ct", func(a *rlwe.Ciphertext) ([]*rlwe.Ciphertext, error) { return one(e.eval.DropLevelNew(a, 1), nil) }},
+			{"DropLevelNew-0", "ct", func(a *rlwe.Ciphertext) ([]*rlwe.Ciphertext, error) { return one(e.eval.DropLevelNew(a, 0), nil) }},
+			{"CopyNew", "ct", func(a *rlwe.Ciphertext) ([]*rlwe.Ciphertext, error) { return one(a.CopyNew(), nil) }},
+			{"RelinearizeNew", "deg2", func(a *rlwe.Ciphertext) ([]*rlwe.Ciphertext, error) { return one(e.eval.RelinearizeNew(a)) }},
+			{"RotateNew-1", "ct", func(a *rlwe.Ciphertext) ([]*rlwe.Ciphertext, error) { return one(e.eval.RotateNew(a, 1)) }},
+			{"RotateNew-0", "ct", func(a *rlwe.Ciphertext) ([]*rlwe.Ciphertext, error) { return one(e.eval.RotateNew(a, 0)) }},
+			{"RotateHoistedNew", "ct", func(a *rlwe.Ciphertext) ([]*rlwe.Ciphertext, error) {
+				m, err := e.eval.RotateHoistedNew(a, []int{1, 2})
+				return []*rlwe.Ciphertext{m[1], m[2]}, err
+			}},
+			{"Rescale-into-receiver", "big", func(a *rlwe.Ciphertext) ([]*rlwe.Ciphertext, error) {
+				return into(1, L, func(o *rlwe.Ciphertext) error { return e.eval.Rescale(a, o) })
+			}},
+			{"RescaleTo-into-receiver", "big", func(a *rlwe.Ciphertext) ([]*rlwe.Ciphertext, error) {
+				return into(1, L, func(o *rlwe.Ciphertext) error { return e.eval.RescaleTo(a, ds, o) })
+			}},
+			{"RescaleTo-nothing-to-rescale", "ct", func(a *rlwe.Ciphertext) ([]*rlwe.Ciphertext, error) {
+				return into(1, L, func(o *rlwe.Ciphertext) error { return e.eval.RescaleTo(a, ds, o) })
+			}},
+			{"Rotate-0-into-receiver", "ct", func(a *rlwe.Ciphertext) ([]*rlwe.Ciphertext, error) {
+				return into(1, L, func(o *rlwe.Ciphertext) error { return e.eval.Rotate(a, 0, o) })
+			}},
+			{"Relinearize-into-receiver", "deg2", func(a *rlwe.Ciphertext) ([]*rlwe.Ciphertext, error) {
+				return into(1, L, func(o *rlwe.Ciphertext) error { return e.eval.Relinearize(a, o) })
+			}},
+			{"Add-into-receiver", "ct", func(a *rlwe.Ciphertext) ([]*rlwe.Ciphertext, error) {
+				return into(1, L, func(o *rlwe.Ciphertext) error { return e.eval.Add(a, 0.25, o) })
+			}},
+		}
+		if !e.ci {
+			ops = append(ops, newOp{"ConjugateNew", "ct", func(a *rlwe.Ciphertext) ([]*rlwe.Ciphertext, error) { return one(e.eval.ConjugateNew(a)) }})
+		}
+		input := func(kind string) *rlwe.Ciphertext {
+			switch kind {
+			case "deg2":
+				x, y := e.fresh(c, L, e.logMax, ds), e.fresh(c, L, e.logMax, ds)
+				p, err := e.eval.MulNew(x.ct, y.ct)
+				if err != nil {
+					panic(err)
+				}
+				return p
+			case "big":
+				return e.fresh(c, L, e.logMax, ds.Mul(ps)).ct
+			}
+			return e.fresh(c, L, e.logMax, ds).ct
+		}
+		// state of a ciphertext: metadata token, deep copy, decoded values (when the message fits)
+		type state struct {
+			meta string
+			snap *rlwe.Ciphertext
+			vals []complex128
+		}
+		grab := func(ct *rlwe.Ciphertext) state {
+			st := state{meta: c06Meta(ct.El()), snap: ct.CopyNew()}
+			if e.fits(ct, 4) {
+				st.vals = e.decode(ct)
+			}
+			return st
+		}
+		same := func(ct *rlwe.Ciphertext, st state) string {
+			if m := c06Meta(ct.El()); m != st.meta {
+				return "metadata " + st.meta + " -> " + m
+			}
+			if !ct.Equal(st.snap) {
+				return "limbs changed"
+			}
+			if st.vals != nil {
+				v := e.decode(ct)
+				for i := range v {
+					if v[i] != st.vals[i] {
+						return "decoded value changed"
+					}
+				}
+			}
+			return ""
+		}
+		mutate := func(x *rlwe.Ciphertext) error {
+			if err := e.eval.Mul(x, 0.5, x); err != nil {
+				return err
+			}
+			_ = e.eval.SetScale(x, x.Scale.Mul(rlwe.NewScale(1.25)))
+			return nil
+		}
+		for _, op := range ops {
+			for _, dir := range []string{"mutate-output", "mutate-input"} {
+				d := Try(func() string {
+					a := input(op.in)
+					outs, err := op.f(a)
+					if err != nil {
+						return "call failed"
+					}
+					if dir == "mutate-output" {
+						st := grab(a)
+						for _, o := range outs {
+							if o == a {
+								return "the input itself was returned"
+							}
+							if err := mutate(o); err != nil {
+								return "mutation failed"
+							}
+							if s := same(a, st); s != "" {
+								return "input: " + s
+							}
+						}
+						return ""
+					}
+					sts := make([]state, len(outs))
+					for i, o := range outs {
+						sts[i] = grab(o)
+					}
+					if err := mutate(a); err != nil {
+						return "mutation failed"
+					}
+					for i, o := range outs {
+						if s := same(o, sts[i]); s != "" {
+							return "output: " + s
+						}
+					}
+					return ""
+				})
+				c.Probe("output_independent", fmt.Sprintf("%s %s %s", e.tag, op.name, dir), "C06/"+op.name+"/output-shares-metadata-or-limbs", d)
+			}
 		}
 	}
 }
